@@ -79,7 +79,7 @@ theorem Mem.slotFree_ge (m : Mem) (tr : Nat) (s : Nat) (l : LTree) (h : m.slots[
   exact le_sum_of_mem _ _ (List.mem_map_of_mem hmem)
 
 section
-variable {c : Cfg} {H : Nat → Prop} {P : Nat → Nat} {R : Nat → Prop} {m : Mem}
+variable {c : Cfg} {H : Nat → Nat} {P : Nat → Nat} {R : Nat → Prop} {m : Mem}
 
 theorem UpperInv.tree_lt (inv : UpperInv c H P R m) (i : Nat) (t : Tree) (h : m.trees[i]? = some t) : i < c.ntrees := by
   have := (Array.getElem?_eq_some_iff.1 h).1
@@ -92,7 +92,7 @@ theorem UpperInv.tree_get (inv : UpperInv c H P R m) (i : Nat) (hi : i < c.ntree
 /-- **Writing a tree entry.** The caller supplies what the slots that point to the tree, the
     reserved flag and the counters need; every other tree is untouched. -/
 theorem UpperInv.set_tree (inv : UpperInv c H P R m) (i : Nat) (t t' : Tree) (h : m.trees[i]? = some t)
-    (H' : Nat → Prop) (P' : Nat → Nat) (R' : Nat → Prop)
+    (H' : Nat → Nat) (P' : Nat → Nat) (R' : Nat → Prop)
     (hcls : t'.cls < 8)
     (hslot : ∀ (s : Nat) (l : LTree) (k : Nat), m.slots[s]? = some l → l.present = true → c.slotClass s k →
       l.row / c.geom.treeRows = i → t'.reserved = true ∧ k ≤ t'.cls)
@@ -100,9 +100,8 @@ theorem UpperInv.set_tree (inv : UpperInv c H P R m) (i : Nat) (t t' : Tree) (h 
     (hRi : R' i → ∀ (s : Nat) (l : LTree), m.slots[s]? = some l → l.present = true → l.row / c.geom.treeRows ≠ i)
     (hR : ∀ j, j ≠ i → (R' j ↔ R j))
     (hP : ∀ j, j ≠ i → P' j = P j)
-    (hH : ∀ j, j ≠ i → ¬ H' j → ¬ H j)
-    (hle : t'.free + m.slotFree c.geom.treeRows i + P' i ≤ m.freeInTree c.geom i)
-    (heq : ¬ H' i → t'.free + m.slotFree c.geom.treeRows i + P' i = m.freeInTree c.geom i) :
+    (hH : ∀ j, j ≠ i → H' j = H j)
+    (heq : t'.free + m.slotFree c.geom.treeRows i + P' i + H' i = m.freeInTree c.geom i) :
     UpperInv c H' P' R' (m.set .tree i t') := by
   have hi : i < m.trees.size := (Array.getElem?_eq_some_iff.1 h).1
   have hget : ∀ j, (m.set .tree i t').trees[j]? = if j = i then some t' else m.trees[j]? := by
@@ -119,7 +118,7 @@ theorem UpperInv.set_tree (inv : UpperInv c H P R m) (i : Nat) (t t' : Tree) (h 
     treesSize := by simp only [Mem.set_tree_trees, Array.size_setIfInBounds]; exact inv.treesSize
     slotsSize := inv.slotsSize
     treeCls := ?_, slotTree := ?_, slotCls := inv.slotCls, slotInj := inv.slotInj, slotNotR := ?_,
-    resSlot := ?_, counterLe := ?_, counterEq := ?_ }
+    resSlot := ?_, counter := ?_ }
   · intro j x hx
     rw [hget] at hx
     split at hx
@@ -149,14 +148,8 @@ theorem UpperInv.set_tree (inv : UpperInv c H P R m) (i : Nat) (t t' : Tree) (h 
     rw [hget] at hx
     rw [hfree]
     split at hx
-    · rename_i e; cases hx; subst e; exact hle
-    · rename_i e; rw [hP j e]; exact inv.counterLe j x hx
-  · intro j x hx hnh
-    rw [hget] at hx
-    rw [hfree]
-    split at hx
-    · rename_i e; cases hx; subst e; exact heq hnh
-    · rename_i e; rw [hP j e]; exact inv.counterEq j x hx (hH j e hnh)
+    · rename_i e; cases hx; subst e; exact heq
+    · rename_i e; rw [hP j e, hH j e]; exact inv.counter j x hx
 
 /-- changing only the counter (and possibly the class upwards) of a tree, with the ghost
     count of its unaccounted frames adjusted -/
@@ -178,9 +171,8 @@ theorem UpperInv.set_tree_counter (inv : UpperInv c H P R m) (i : Nat) (t t' : T
     exact inv.slotNotR s l hs hp (by rw [e]; exact hr)
   · intro j _; exact Iff.rfl
   · exact hP
-  · intro j _ hn; exact hn
-  · have := inv.counterLe i t h; omega
-  · intro hn; have := inv.counterEq i t h hn; omega
+  · intro j _; rfl
+  · have := inv.counter i t h; omega
 
 /-- **Writing a slot.** -/
 theorem UpperInv.set_slot (inv : UpperInv c H P R m) (s : Nat) (l l' : LTree) (h : m.slots[s]? = some l)
@@ -211,7 +203,7 @@ theorem UpperInv.set_slot (inv : UpperInv c H P R m) (s : Nat) (l l' : LTree) (h
     treesSize := inv.treesSize
     slotsSize := by simp only [Mem.set_slot_slots, Array.size_setIfInBounds]; exact inv.slotsSize
     treeCls := inv.treeCls, slotTree := ?_, slotCls := ?_, slotInj := ?_, slotNotR := ?_,
-    resSlot := ?_, counterLe := ?_, counterEq := ?_ }
+    resSlot := ?_, counter := ?_ }
   · intro s1 x k hx hp hk
     rw [hget] at hx
     split at hx
@@ -251,13 +243,7 @@ theorem UpperInv.set_slot (inv : UpperInv c H P R m) (s : Nat) (l l' : LTree) (h
       · right; exact ⟨s0, x, by rw [hget]; simp [es]; exact hx, hp, e⟩
   · intro j t ht
     rw [hfree]
-    have := inv.counterLe j t ht
-    have h1 := hsf j
-    have h2 := hP j
-    omega
-  · intro j t ht hn
-    rw [hfree]
-    have := inv.counterEq j t ht hn
+    have := inv.counter j t ht
     have h1 := hsf j
     have h2 := hP j
     omega
